@@ -129,19 +129,10 @@ Theorem set_targets_preserves : forall next r r',
 Proof. exact Proofs.Roadm.set_targets_preserves. Qed.
 Print Assumptions set_targets_preserves.
 
-(* Full statement wanted:  forall next r, exactly_one r -> exists r', set_targets r next = Ok r'
-   (every ROADM with exactly one node-level policy can be designed).  It is FALSE of the faithful model while
-   defect F12 is in /repo (truthiness test on a 0 dBm target): see set_targets_zero_dbm_refuted.  Proved: the
-   statement outside the defect's region. *)
-Theorem set_targets_ok_partial : forall next r,
-  exactly_one r -> (forall t, npow r = Some t -> ~ t == 0) -> exists r', set_targets r next = Ok r'.
-Proof. exact Proofs.Roadm.set_targets_ok_partial. Qed.
-Print Assumptions set_targets_ok_partial.
-
-Theorem set_targets_zero_dbm_refuted :
-  exists r next, exactly_one r /\ set_targets r next = Err "ConfigurationError:needs an equalization target".
-Proof. exact Proofs.Roadm.set_targets_zero_dbm_refuted. Qed.
-Print Assumptions set_targets_zero_dbm_refuted.
+(* every ROADM with exactly one node-level policy can be designed (F12 fixed) *)
+Theorem set_targets_ok : forall next r, exactly_one r -> exists r', set_targets r next = Ok r'.
+Proof. exact Proofs.Roadm.set_targets_ok. Qed.
+Print Assumptions set_targets_ok.
 
 Theorem design_rejects_none : forall next r d,
   npow r = None -> npsd r = None -> npsw r = None -> In d next -> deg_has r d = false ->
@@ -224,6 +215,14 @@ Proof. vm_compute. reflexivity. Qed.
 Example ex_design_populates :
   match set_targets ex_roadm [2; 3; 4; 5]%Z with
   | Ok r' => dpow r' = [(2%Z, -16)] /\ dpsd r' = [(4%Z, -34); (5%Z, -34)] /\ dpsw r' = [(3%Z, -35)]
+  | Err _ => False
+  end.
+Proof. vm_compute. repeat split; reflexivity. Qed.
+
+(* a 0 dBm node target is a target: the design step populates it (regression of F12) *)
+Example ex_design_zero_dbm :
+  match set_targets (mkRoadm (Some 0) None None [] [] [] None [] []) [1; 2]%Z with
+  | Ok r' => dpow r' = [(1%Z, 0); (2%Z, 0)] /\ exactly_one r'
   | Err _ => False
   end.
 Proof. vm_compute. repeat split; reflexivity. Qed.
